@@ -240,7 +240,6 @@ package sse
 //@   ensures auto_consecutive_ids: result1 == nil && f.currentID != nil ==> result.ID.value == fmtU(old(*f.currentID)) && *f.currentID == old(*f.currentID) + 1 && fresh(result)
 //@   ensures message_untouched: *message == old(*message)
 
-
 //@ func FiniteReplayer.Replay
 //@   requires f != nil && fok(f) && idwf(subscription.LastEventID)
 //@   ensures replays_nothing: forall(k, 0, f.buf.count-1, at(&f.buf, k).ID() != subscription.LastEventID) && !(f.currentID != nil && evictedauto(&f.buf, subscription.LastEventID)) ==> ncalls() == old(ncalls()) && result == nil
@@ -737,6 +736,18 @@ package sse
 //@   invariant 0 parser_alive: p != nil && p.fieldScanner != nil && p.inputScanner != nil && !p.fieldScanner.keepComments
 //@   invariant 0 no_error_yielded_yet: forall(x, old(ncalls()), ncalls(), isyield(x) ==> yielderr(x) == nil && cret(x, "yield", 0))
 //@   invariant 0 retries_valid: forall(x, old(ncalls()), ncalls(), iscall(x, "onRetry") ==> carg(x, "onRetry", 0) >= 0)
+//@   step 0 data_appends_a_line: f.Name == "data" ==> eqbytes(sb, prev(sb) + f.Value + "\n")
+//@   step 0 data_keeps_the_rest: f.Name == "data" ==> typ == prev(typ) && lastEventID == prev(lastEventID) && dirty && ncalls() == prev(ncalls())
+//@   step 0 event_sets_the_type: f.Name == "event" ==> typ == f.Value && sb == prev(sb) && lastEventID == prev(lastEventID) && dirty && ncalls() == prev(ncalls())
+//@   step 0 id_sets_the_last_event_id: f.Name == "id" && indexbyte(f.Value, 0) == -1 ==> lastEventID == f.Value && dirty && sb == prev(sb) && typ == prev(typ) && ncalls() == prev(ncalls())
+//@   step 0 id_with_nul_is_ignored: f.Name == "id" && indexbyte(f.Value, 0) != -1 ==> lastEventID == prev(lastEventID) && dirty == prev(dirty) && sb == prev(sb) && typ == prev(typ) && ncalls() == prev(ncalls())
+//@   step 0 retry_only_for_digit_strings: forall(x, prev(ncalls()), ncalls(), iscall(x, "onRetry") ==> f.Name == "retry" && len(f.Value) > 0 && alldigits(f.Value))
+//@   step 0 retry_changes_nothing_else: f.Name == "retry" ==> sb == prev(sb) && typ == prev(typ) && lastEventID == prev(lastEventID) && ncalls() <= prev(ncalls()) + 1 &&
+//@       dirty == (prev(dirty) || ncalls() > prev(ncalls())) && forall(x, prev(ncalls()), ncalls(), iscall(x, "onRetry"))
+//@   step 0 blank_line_dispatches_a_dirty_event: f.Name == "" && prev(dirty) ==> ncalls() == prev(ncalls()) + 1 && isyield(prev(ncalls())) && yielderr(prev(ncalls())) == nil &&
+//@       yieldev(prev(ncalls())).LastEventID == prev(lastEventID) && yieldev(prev(ncalls())).Type == prev(typ) && eqbytes(yieldev(prev(ncalls())).Data, chomp(prev(sb)))
+//@   step 0 dispatch_resets_data_and_type_only: f.Name == "" && prev(dirty) && cret(prev(ncalls()), "yield", 0) ==> sb == "" && typ == "" && !dirty && lastEventID == prev(lastEventID)
+//@   step 0 blank_line_without_fields_does_nothing: f.Name == "" && !prev(dirty) ==> ncalls() == prev(ncalls()) && sb == prev(sb) && typ == prev(typ) && lastEventID == prev(lastEventID) && !dirty
 
 // ---------------------------------------------------------------------------------------------------------
 // client_connection.go: reading one response (C10, C11, C13 order, C20 wiring)
@@ -833,3 +844,8 @@ package sse
 //@   invariant 0 on_retry_precedes_each_timer_reset: c.client.OnRetry != nil ==> forall(x, old(ncalls()), ncalls(), iscall(x, "TimerReset") ==> x > old(ncalls()) && iscall(x-1, "OnRetry") && carg(x-1, "OnRetry", 1) == carg(x, "TimerReset", 0))
 //@   invariant 0 no_validator_rejection_so_far: forall(x, old(ncalls()), ncalls(), iscall(x, "ResponseValidator") ==> cret(x, "ResponseValidator", 0) == nil)
 //@   invariant 0 on_retry_only_before_a_wait: forall(x, old(ncalls()), ncalls(), iscall(x, "OnRetry") ==> x+1 < ncalls() && iscall(x+1, "TimerReset"))
+
+// One iteration of read's loop performs exactly one step of the WHATWG "process the field" / "dispatch the event"
+// algorithm (with go-sse's adaptations) on the interpreter state (sb, typ, lastEventID, dirty). prev(e) is the value
+// of e when the iteration's body starts (the field f has just been read).
+//@ pure chomp(s) = ite(len(s) > 0, substr(s, 0, len(s)-1), s)
